@@ -54,4 +54,92 @@ theorem wve_session_accepted (sr : Nat) (hwf : Wve.wf 1 sr) (ty : Ty) (stale sta
     (hv : Valid 1 ty ops) : accepted (Small.recordOf (wveCont sr) ty stale stale' ops) = true :=
   cont_session_accepted _ _ (wve_laws sr hwf) ty stale stale' ops hv trivial (fun _ _ _ => trivial)
 
+/-! ## the wrapper for containers whose guards depend on the number of audio bytes only -/
+
+/-- the guard `G` of a container: whole frames of audio, and a predicate `P` on the audio byte count -/
+def guardOf (bw : Nat) (P : Nat → Prop) (ops : List Small2.WOp) : Prop :=
+  (Small2.opsData ops).length % bw = 0 ∧ P (Small2.opsData ops).length
+
+theorem whole_single (bw : Nat) (d : List Byte) (h : d.length % bw = 0) : Small2.WholeFrames bw [.write d false] := by
+  intro op hop; simp only [List.mem_singleton] at hop; subst hop; exact h
+
+theorem small2_session_accepted (F : Small2.Fmt) (parse : List Byte → Small2.ParseRes) (g : AbsWrite.Geom) (enc : Enc)
+    (P : Nat → Prop) (X : Small.Small2Facts F parse g enc (guardOf (enc.nbytes * g.ch) P)) (ty : Ty) (stale stale' : Nat)
+    (ops : List Small.Op) (hv : Valid g.ch ty ops)
+    (hP : ∀ p post, ops = p ++ post → P ((Small.sampleList p).length * enc.nbytes)) :
+    accepted (Small.recordOf (small2Cont F parse g enc) ty stale stale' ops) = true := by
+  have hG : ∀ p, Valid g.ch ty p → P ((Small.sampleList p).length * enc.nbytes) →
+      guardOf (enc.nbytes * g.ch) P (Small.toW (small2Cont F parse g enc) ty false p) := by
+    intro p hvp hp
+    obtain ⟨g1, g2⟩ := Small.callsOf_good g.ch ty p hvp
+    have hl := samples_length g.ch _ g1
+    rw [g2] at hl
+    unfold guardOf
+    rw [Small.opsData_toW]
+    show ((small2Cont F parse g enc).enc.encodeAll {} ty (Small.sampleList p)).length % _ = 0 ∧ _
+    rw [Enc.encodeAll_length]
+    refine ⟨?_, hp⟩
+    show (Small.sampleList p).length * enc.nbytes % (enc.nbytes * g.ch) = 0
+    rw [hl, Nat.mul_assoc, Nat.mul_comm g.ch]; exact Nat.mul_mod_left _ _
+  apply cont_session_accepted _ _ (laws_of_small2 X) ty stale stale' ops hv
+  · apply hG _ (Small.refOps_valid g.ch ty X.chpos ops hv)
+    rw [Small.refOps_samples]
+    simpa using hP ops [] (by simp)
+  · intro p post e
+    exact hG p (fun o ho => hv o (by rw [e]; simp [ho])) (hP p post e)
+
+/-- the encoding a sample-granular codec code selects, by byte order -/
+def encFor (codec : Nat) (big : Bool) : Enc := (encOf .raw codec big).getD .ulaw
+
+/-! ## MAT4 (PCM_16 / PCM_32 / FLOAT / DOUBLE, both byte orders) -/
+
+def mat4Geom (c : Mat4.Cfg) : AbsWrite.Geom := { word := c.endian * 0x10000000 + 0x0C0000 + c.codec, ch := c.ch, sr := c.sr }
+
+theorem mat4_facts (c : Mat4.Cfg) (hwf : c.wf) :
+    Small.Small2Facts (Mat4.fmt c) Mat4.parse (mat4Geom c) (encFor c.codec (!c.little))
+      (guardOf ((encFor c.codec (!c.little)).nbytes * (mat4Geom c).ch) (fun D => D / c.bw < 2 ^ 31)) := by
+  obtain ⟨m1, m2, m3⟩ := small2_machine_facts (Mat4.fmt c) (Mat4.lawful c) rfl
+  obtain ⟨hcd, hend, hch1, hch2, hsr1, hsr2⟩ := hwf
+  have hcodec : (mat4Geom c).codec = c.codec := by
+    show (c.endian * 0x10000000 + 0x0C0000 + c.codec) % 0x10000 = c.codec
+    rcases hcd with h | h | h | h <;> omega
+  have hmajor : (mat4Geom c).major = 0x0C := by
+    show (c.endian * 0x10000000 + 0x0C0000 + c.codec) / 0x10000 % 0x1000 = 0x0C
+    rcases hcd with h | h | h | h <;> omega
+  have henc : encOf .raw c.codec (!c.little) = some (encFor c.codec (!c.little)) := by
+    unfold encFor; rcases hcd with h | h | h | h <;> rw [h] <;> simp [encOf]
+  have hnbw : (encFor c.codec (!c.little)).nbytes = Mat4.bytewidth c.codec := by
+    unfold encFor; rcases hcd with h | h | h | h <;> rw [h] <;> simp [encOf, Enc.nbytes, PcmFmt.nbytes, Mat4.bytewidth]
+  have hbw : (encFor c.codec (!c.little)).nbytes * (mat4Geom c).ch = c.bw := by rw [hnbw]; rfl
+  obtain ⟨hnb, hewf⟩ := encOf_props _ _ _ _ henc
+  refine { chpos := hch1, nb := hnb, wf := hewf,
+           block := C04.frames_bound_granular _ _ _ _
+             (by rw [hcodec]; rcases hcd with h | h | h | h <;> rw [h] <;> simp [Geometry.sampleGranular])
+             (by rw [hmajor]; simp),
+           notRaw := by rw [hmajor]; simp, codec := ⟨_, by rw [hcodec]; exact henc⟩,
+           snapForm := m1, closedIsSnap := m2, snapFn := m3, snapParse := ?_, Gdata := fun a b e h => by unfold guardOf at *; rw [← e]; exact h }
+  intro st ops hg
+  rw [hbw] at hg ⊢
+  obtain ⟨hmod, hguard⟩ := hg
+  have e := m3 st st ops [.write (Small2.opsData ops) false] (by simp [Small2.opsData])
+  obtain ⟨h1, _⟩ := C04Mat4.mat4_snapshot_valid c ⟨hcd, hend, hch1, hch2, hsr1, hsr2⟩ st [.write (Small2.opsData ops) false]
+    (whole_single _ _ hmod) (by simpa [Small2.opsData] using hguard)
+  rw [← e] at h1
+  refine ⟨_, h1, by simp [Small2.opsData], rfl, ?_, ?_⟩
+  · show c.fmtWord % 0x10000000 = (c.endian * 0x10000000 + 0x0C0000 + c.codec) % 0x10000000
+    unfold Mat4.Cfg.fmtWord
+    rcases hcd with h | h | h | h <;> (split <;> omega)
+  · have hq := C04Mat4.mat4_rate_exact c.sr hsr1 hsr2
+    show rateOk (mat4Geom c).major c.sr ((Mat4.quant c.sr : Nat) : Int) = true
+    rw [hq, hmajor]; simp [rateOk, rateClass]
+
+/-- MAT4: every job of whole frames is accepted under the guard of the 32-bit cols field (fewer than 2^31 frames) -/
+theorem mat4_session_accepted (c : Mat4.Cfg) (hwf : c.wf) (ty : Ty) (stale stale' : Nat) (ops : List Small.Op)
+    (hv : Valid c.ch ty ops) (hguard : (Small.sampleList ops).length * (encFor c.codec (!c.little)).nbytes / c.bw < 2 ^ 31) :
+    accepted (Small.recordOf (small2Cont (Mat4.fmt c) Mat4.parse (mat4Geom c) (encFor c.codec (!c.little))) ty stale stale' ops) = true := by
+  apply small2_session_accepted _ _ _ _ _ (mat4_facts c hwf) ty stale stale' ops hv
+  intro p post e
+  have : (Small.sampleList p).length ≤ (Small.sampleList ops).length := by rw [e, Small.sampleList_append]; simp
+  exact Nat.lt_of_le_of_lt (Nat.div_le_div_right (Nat.mul_le_mul_right _ this)) hguard
+
 end Sf.C04Bridge
